@@ -145,8 +145,8 @@ Fixpoint ends_2slash (l : list N) : bool :=
 Definition ident_ok (t : list N) : bool :=
   match t with
   | [] => false
-  | [47] => true
   | c :: _ =>
+      if str_eqb t [47] then true else
       match after_last_slash None t with
       | None => name_start c
       | Some r =>
@@ -166,10 +166,8 @@ Fixpoint split_slash (l : list N) : option (list N * list N) :=
               else match split_slash r with Some (a, b) => Some (c :: a, b) | None => None end
   end.
 Definition split_ident (t : list N) : option (list N) * list N :=
-  match t with
-  | [47] => (None, t)
-  | _ => match split_slash t with Some (a, b) => (Some a, b) | None => (None, t) end
-  end.
+  if str_eqb t [47] then (None, t)
+  else match split_slash t with Some (a, b) => (Some a, b) | None => (None, t) end.
 
 (** any(len(s) == 0 for s in ns.split(".")) *)
 Fixpoint has_empty_seg (at_start : bool) (l : list N) : bool :=
